@@ -14,8 +14,24 @@ correspondence : every hierarchy a real constructor returns is compared with the
                  handed to fit_candidates, the shape of the pairwise P) -> stall / proceed and rows + blocksize of the
                  appended level, exact, on every step of every generated hierarchy; `ext_c04_build` = `Coarsen.build`
                  instantiated with these steps on the table of traced inputs -> rows, blocksizes, exit reason, calls.
+                 `ext_spmm` / `ext_convert` (extension E27) = the executable model of the sparse algebra the constructors
+                 delegate to scipy.sparse (`Model/ExtSpmm.lean`: CSR product as csr_matmat computes it, transpose, conjugate,
+                 COO / CSC / dense / BSR -> CSR; proved: dense meaning of the product = product of the dense meanings, conversions
+                 preserve the dense meaning, hence format independence of the Galerkin step) on the level operators of every
+                 small real hierarchy: (a) `A_c` of the real level against the exact model product of the stored R, A, P
+                 (raw arrays in whatever format the constructor left them, exact rationals; tolerance of the Galerkin clause);
+                 (b) R, A, P snapped to the dyadic grid 2^-6 Z in [-16, 16] (all float64 products exact): scipy's `R @ A @ P`
+                 against the model product, exact as dense meanings (raw index/data arrays compared too, counted as a feature);
+                 (c) the snapped finest matrix re-stored as CSC / COO with shuffled, split (duplicate) entries / dense / BSR:
+                 `tocsr()` against the model conversion and the Galerkin product through that input format, exact.
 search         : the five constructors x option grids x max_levels x max_coarse x formats x dtypes x keep x
-                 candidates x symmetry flags, judged by an independent NumPy oracle of every clause.
+                 candidates x symmetry flags, judged by an independent NumPy oracle of every clause;
+                 call histories: 2-3 constructor calls (any of the five; complex data: the two that accept it) on the SAME
+                 matrix object (CSR / BSR float input is not copied by the constructors, they tag it), each call with its own
+                 symmetry flag (or the default), options, limits, keep, sometimes the very option objects of an earlier call
+                 again; every hierarchy is judged against the options of the call that built it (same oracle, same Lean
+                 ops), the user's values must stay what they were before the first call, and the hierarchies returned
+                 earlier are judged again after each later call.
 """
 import contextlib
 import copy
@@ -26,7 +42,7 @@ import numpy as np
 import scipy.sparse as sp
 
 import gen
-from common import enc_ints, enc_list, enc_rat, enc_crat
+from common import enc_ints, enc_list, enc_rat, enc_crat, dec_list, dec_crat
 
 META = {
     'rule': 'matrices: 1-D/2-D Poisson, anisotropic and upwind convection-diffusion stencils, weighted graph Laplacians, random SPD, '
@@ -36,7 +52,12 @@ META = {
             'aggregation, interpolation or prolongation smoothing, AIR restriction, filter_operator, 1-3 candidates B / BH, symmetry flag, '
             'improve_candidates, diagonal_dominance, keep, predefined strength / aggregation operators) x max_levels in {1,2,3,10,4,6,20} x '
             'max_coarse in {0,1,5,20,2,3,10,50}; plus adaptive_sa_solver and a bare MultilevelSolver; a case is non-trivial unless the user '
-            'asked for max_levels = 1; distinct = distinct (constructor, matrix, format, dtype, options, limits)',
+            'asked for max_levels = 1; distinct = distinct (constructor, matrix, format, dtype, options, limits); 12 % of the draws are '
+            'call histories: 2-3 calls of the constructors on one matrix object (real families: all five constructors; complex: '
+            'gallery.gauge_laplacian, Hermitian / symmetric / nonsymmetric rotations with sa / rootnode), formats CSR / BSR / csr_matrix '
+            '(object shared with the library) or CSC / dense (converted copy), per call a fresh symmetry flag (hermitian / omitted = '
+            'default / symmetric / nonsymmetric), option set, limits and keep, a quarter of the later calls repeat an earlier one with '
+            'its option objects and other scalars; each call of a history counts as a case (distinct = the call and the calls before it)',
     'search_only': ['hierarchies with more than 24 unknowns on the finest level, float32 hierarchies and AIR hierarchies with filtering: shapes, '
                     'Galerkin product, R = P^T / P^H are judged by the NumPy oracle only (the proved checker `checkHier` runs on the others)',
                     'finest level = the user\'s values and the user\'s matrix object left untouched: NumPy oracle',
@@ -46,6 +67,11 @@ META = {
                     'aggregation routines with the NumPy random state recorded at the entry of the real step; the loop theorems take the '
                     'step outcomes as input',
                     'adaptive_sa_solver and MultilevelSolver(levels) without R (default R = P^H): NumPy oracle only',
+                    'that the real `R @ A @ P`, `P.T.tocsr()`, `.conjugate()` of scipy.sparse compute what the proved model of them '
+                    '(Model/ExtSpmm.lean: spmm_product, spmm_transpose, spmm_galerkin) computes is observed, not proved: exact comparison of '
+                    'dense meanings on the level operators of every third (thorough tier: fourth) small hierarchy, values snapped to a '
+                    'dyadic grid where float64 is exact, and A_c of the real level against the exact model product within the Galerkin '
+                    'tolerance; the stored index / data arrays agree as well (feature spmm:layout-same)',
                     'exceptions: a constructor that raises on an option set / format the generator regards as supported, or does not '
                     'return within 30 s, is reported (returns no levels)'],
     'partial': [],
@@ -202,6 +228,12 @@ def gen_matrix(rng, ctor, quick, fam=None):
         E, _ = pyamg.gallery.linear_elasticity((k, int(rng.integers(2, 6 if big else 4))))
         M = E.toarray()
         tags['elas'] = True
+    elif fam == 'gauge':
+        # complex Hermitian gauge Laplacian on a k x k periodic grid (call histories); the gallery routine draws from np.random
+        import pyamg
+        np.random.seed(int(rng.integers(2 ** 31)))
+        k = int(rng.integers(3, 10 if big else 7))
+        M = pyamg.gallery.gauge_laplacian(k, beta=float(rng.choice([0.1, 0.3, 1.0]))).toarray()
     elif fam in ('cherm', 'csym', 'cnonsym'):
         n = int(rng.integers(2, min(nmax, 60) + 1))
         kind = str(rng.choice(['poisson1d', 'poisson2d', 'laplacian']))
@@ -315,14 +347,16 @@ def gen_B(rng, n, k, cplx):
     return B
 
 
-def opts_sa(rng, tags, root=False):
+def opts_sa(rng, tags, root=False, force_sym=None):
     cplx = tags['complex']
     fam = tags['fam']
-    sym = {'cherm': 'hermitian', 'csym': 'symmetric', 'cnonsym': 'nonsymmetric', 'upwind': 'nonsymmetric'}.get(fam)
+    sym = {'cherm': 'hermitian', 'gauge': 'hermitian', 'csym': 'symmetric', 'cnonsym': 'nonsymmetric', 'upwind': 'nonsymmetric'}.get(fam)
     if sym is None or rng.random() < 0.25:
         sym = pick(rng, ['hermitian', 'symmetric', 'nonsymmetric']) if sym is None else sym
-        if fam in ('cherm', 'csym', 'cnonsym') and rng.random() < 0.5:
+        if fam in ('cherm', 'csym', 'cnonsym', 'gauge') and rng.random() < 0.5:
             sym = pick(rng, ['hermitian', 'symmetric', 'nonsymmetric'])   # the flag is the user's claim, not checked
+    if force_sym is not None:
+        sym = force_sym                                                   # call histories: the flag changes from call to call
     st = pick(rng, STRENGTHS)
     ag = pick(rng, ['standard', 'standard', 'naive', 'lloyd', ('lloyd', {'ratio': 0.3, 'maxiter': 3}), 'pairwise',
                     ('pairwise', {'theta': 0.25, 'norm': 'min', 'matchings': 1}), ('pairwise', {'matchings': 2, 'theta': 0.0, 'norm': 'abs'})])
@@ -464,12 +498,17 @@ def add_predefined(rng, ctor, D, kw):
     kw['improve_candidates'] = None
 
 
-def gen_case(rng, quick, ctor=None):
+def gen_case(rng, quick, ctor=None, given=None):
+    """given = {'A', 'tags', 'fmt', 'bs', 'sym'}: the matrix, its storage and the symmetry flag are fixed by the caller
+    (call histories on one matrix object); the options, limits and candidates are drawn as usual"""
     ctor = ctor or str(pick(rng, ['rs', 'air', 'sa', 'sa', 'rn', 'pw']))
-    D, tags = gen_matrix(rng, ctor, quick)
+    D, tags = gen_matrix(rng, ctor, quick) if given is None else (given['A'], given['tags'])
     n = D.shape[0]
     kw = {'rs': opts_rs, 'air': opts_air, 'sa': opts_sa, 'pw': opts_pw}.get(ctor, None)
-    kw = opts_sa(rng, tags, root=True) if ctor == 'rn' else kw(rng, tags)
+    if ctor in ('sa', 'rn'):
+        kw = opts_sa(rng, tags, root=(ctor == 'rn'), force_sym=None if given is None else given.get('sym'))
+    else:
+        kw = kw(rng, tags)
     ML, MC = gen_limits(rng)
     kw['max_levels'], kw['max_coarse'] = ML, MC
     # storage format
@@ -485,6 +524,8 @@ def gen_case(rng, quick, ctor=None):
         dtype = 'float32'
     elif not tags['complex'] and rng.random() < 0.05 and np.all(D == np.round(D)):
         dtype = 'int64'
+    if given is not None:
+        fmt, bs, dtype = given['fmt'], given['bs'], None
     # candidates
     k = 1
     if ctor in ('sa', 'rn'):
@@ -591,6 +632,9 @@ def traced(ctor):
             setattr(obj, attr, f)
 
 
+SCALAR_OPTS = ('max_levels', 'max_coarse', 'keep', 'symmetry')
+
+
 class BuildTimeout(Exception):
     pass
 
@@ -612,15 +656,29 @@ def time_limit(seconds):
         signal.signal(signal.SIGALRM, old)
 
 
-def build(case):
-    """returns (ml, calls, Ain, D0) or raises"""
+def build(case, shared=None):
+    """returns (ml, calls, Ain, D0) or raises; shared = {'Ain', 'D0', 'live_kw'} (call histories): the matrix OBJECT an
+    earlier constructor call already received (D0 = its values before the first call) and, for a repeated call, the very
+    option objects that call was given"""
     import pyamg  # noqa: F401
     ctor = case['ctor']
     modname, fname, _ = CT[ctor]
     fn = getattr(importlib.import_module(modname), fname)
-    Ain = make_input(case['A'], case['fmt'], case['bs'], case.get('dtype'))
-    D0 = dense(Ain).copy()
+    if shared is None:
+        Ain = make_input(case['A'], case['fmt'], case['bs'], case.get('dtype'))
+        D0 = dense(Ain).copy()
+    else:
+        Ain, D0 = shared['Ain'], shared['D0']
     kw = copy.deepcopy(case['kw'])
+    if shared is not None and shared.get('live_kw') is not None:
+        # the option objects of the earlier call (lists / tuples / dictionaries / B as that call left them), new scalars
+        live = dict(shared['live_kw'])
+        for key in SCALAR_OPTS:
+            live.pop(key, None)
+            if key in kw:
+                live[key] = kw[key]
+        kw = live
+    case['_live_kw'] = kw
     np.random.seed(case['seed'])
     with traced(ctor) as calls, time_limit(30):
         ml = fn(Ain, **kw)
@@ -937,6 +995,181 @@ def filtered_mismatch(S, G, theta, lump, tol, Bd):
 
 
 # ------------------------------------------------------------------------------------------------
+# extension E27: the sparse-algebra model (ext_spmm / ext_convert) against scipy.sparse on real level operators
+# ------------------------------------------------------------------------------------------------
+
+def _fr(x):
+    a, b = x.as_integer_ratio()          # lowest terms, b > 0: the canonical form of common.enc_rat, without Fraction objects
+    return str(a) if b == 1 else f'{a}/{b}'
+
+
+def sp_vals(v, cplx=None):
+    """comma list of exact values of a float / complex array (`re|im` when complex)"""
+    v = np.asarray(v).reshape(-1)
+    if v.size == 0:
+        return '-'
+    if np.iscomplexobj(v) if cplx is None else cplx:
+        v = v.astype(complex)
+        return ','.join(_fr(a) + '|' + _fr(b) for a, b in zip(v.real.tolist(), v.imag.tolist()))
+    return ','.join(_fr(a) for a in v.astype(float).tolist())
+
+
+def sp_ints(v):
+    v = np.asarray(v).reshape(-1)
+    return ','.join(map(str, v.tolist())) if v.size else '-'
+
+
+def sp_token(M):
+    """raw arrays of a scipy.sparse object (or an ndarray) as a matrix token of the ext_spmm / ext_convert ops"""
+    if isinstance(M, np.ndarray):
+        return f'dense:{M.shape[0]}:{M.shape[1]}:' + sp_vals(M)
+    if M.format not in ('csr', 'csc', 'coo', 'bsr'):
+        M = M.tocsr()
+    r, c = M.shape
+    if M.format == 'coo':
+        return f'coo:{r}:{c}:{sp_ints(M.row)}:{sp_ints(M.col)}:{sp_vals(M.data)}'
+    nnz = int(M.indptr[-1])
+    if M.format == 'bsr':
+        br, bc = M.blocksize
+        return f'bsr:{r}:{c}:{br}:{bc}:{sp_ints(M.indptr)}:{sp_ints(M.indices[:nnz])}:{sp_vals(M.data[:nnz])}'
+    return f'{M.format}:{r}:{c}:{sp_ints(M.indptr)}:{sp_ints(M.indices[:nnz])}:{sp_vals(M.data[:nnz])}'
+
+
+def sp_dense_str(D):
+    """the reply format of the dense meaning: row-major `re|im`"""
+    return sp_vals(D, cplx=True)
+
+
+def sp_raw_str(C):
+    """raw CSR arrays of a scipy CSR result in the reply format"""
+    nnz = int(C.indptr[-1])
+    return f'{C.shape[0]}:{C.shape[1]}:{sp_ints(C.indptr)}:{sp_ints(C.indices[:nnz])}:{sp_vals(C.data[:nnz], cplx=True)}'
+
+
+def sp_snap(M):
+    """the same stored pattern with the values snapped to the dyadic grid 2^-6 Z, clipped to [-16, 16]: sums of
+    <= 24 * 24 triple products are then exact in float64, so scipy returns the exact product whatever its order"""
+    def q(x):
+        x = np.asarray(x)
+        if np.iscomplexobj(x):
+            return q(x.real) + 1j * q(x.imag)
+        return np.clip(np.round(x.astype(float) * 64.0) / 64.0, -16.0, 16.0)
+    if isinstance(M, np.ndarray):
+        return q(M)
+    if M.format not in ('csr', 'csc', 'coo', 'bsr'):
+        M = M.tocsr()
+    if M.format == 'coo':
+        return sp.coo_array((q(M.data), (M.row.copy(), M.col.copy())), shape=M.shape)
+    return type(M)((q(M.data), M.indices.copy(), M.indptr.copy()), shape=M.shape)
+
+
+def sp_variants(Aq, rng):
+    """the snapped finest matrix stored in the other input formats (same dense meaning)"""
+    out = {'csc': Aq.tocsc(), 'dense': Aq.toarray()}
+    C = Aq.tocoo()
+    row, col, dat = C.row.copy(), C.col.copy(), C.data.copy()
+    if len(dat):
+        dup = rng.random(len(dat)) < 0.5            # split half of the entries in two (exact: the grid is dyadic)
+        row = np.concatenate([row, row[dup], row[:1]])
+        col = np.concatenate([col, col[dup], col[:1]])
+        dat = np.concatenate([np.where(dup, dat / 2, dat), dat[dup] / 2, dat[:1] * 0])   # and one explicit zero
+        perm = rng.permutation(len(dat))
+        row, col, dat = row[perm], col[perm], dat[perm]
+    out['coo'] = sp.coo_array((dat, (row, col)), shape=Aq.shape)
+    for b in (3, 2, 1):
+        if Aq.shape[0] % b == 0 and Aq.shape[1] % b == 0:
+            out['bsr'] = sp.bsr_array(Aq.tocsr(), blocksize=(b, b))
+            break
+    return out
+
+
+def queue_spmm(ctx, case, ml, info, bad, pending, viol):
+    """extension E27 (see the module docstring): (a) real A_c vs exact model product, (b) scipy vs model on the dyadic
+    grid, (c) conversions and the Galerkin product through the other input formats"""
+    lv = ml.levels
+    m = len(lv)
+    tol = info['tol']
+    rng = np.random.default_rng(int(case.get('seed', 0)) % (2 ** 32))
+    for l in range(m - 1):
+        L = lv[l]
+        R, A, P, Ac = L.R, L.A, L.P, dense(lv[l + 1].A)
+        if not all(sp.issparse(X) for X in (R, A, P)):
+            ctx.feat('spmm:operand-not-sparse')
+            continue
+        ctx.feat(f'spmm:formats:{R.format}/{A.format}/{P.format}')
+        numpy_ok = not any(b[0] == 'galerkin' and b[1].startswith(f'level {l + 1}:') for b in bad)
+        Bd = np.abs(dense(R)) @ (np.abs(dense(A)) @ np.abs(dense(P)))
+        # (a) the real level operators, exact rational values of the stored floats
+        pending.append(('xgal', f'ext_spmm galerkin {sp_token(R)} {sp_token(A)} {sp_token(P)}',
+                        {'Ac': Ac, 'Bd': Bd, 'tol': tol, 'numpy_ok': numpy_ok, 'level': l}, case, viol))
+        # (b) the same stored patterns on the dyadic grid: scipy is exact there
+        Rq, Aq, Pq = sp_snap(R), sp_snap(A), sp_snap(P)
+        S = Rq @ Aq @ Pq
+        want = sp_dense_str(S.toarray())
+        raw = sp_raw_str(S) if all(X.format == 'csr' for X in (Rq, Aq, Pq)) and S.format == 'csr' else None
+        pending.append(('xdy', f'ext_spmm galerkin {sp_token(Rq)} {sp_token(Aq)} {sp_token(Pq)}',
+                        {'dense': want, 'raw': raw, 'what': 'galerkin'}, case, viol))
+        if l == 0:
+            # (c) the finest matrix through the other input formats
+            for fmt, X in sp_variants(Aq.tocsr(), rng).items():
+                C = sp.csr_array(X) if isinstance(X, np.ndarray) else X.tocsr()
+                pending.append(('xdy', f'ext_convert {sp_token(X)}',
+                                {'dense': sp_dense_str(C.toarray()), 'raw': sp_raw_str(C), 'what': 'convert:' + fmt}, case, viol))
+                pending.append(('xdy', f'ext_spmm galerkin {sp_token(Rq)} {sp_token(X)} {sp_token(Pq)}',
+                                {'dense': want, 'raw': None, 'what': 'galerkin-via:' + fmt}, case, viol))
+            # P.T.tocsr() / P.T.conjugate() as the constructors compute R
+            Pc = Pq.tocsr()
+            T = Pc.T.tocsr()
+            pending.append(('xtr', f'ext_spmm transpose {sp_token(Pc)}',
+                            {'dense': sp_dense_str(T.toarray()), 'raw': sp_raw_str(T)}, case, viol))
+            H = Pc.T.conjugate().tocsr()
+            pending.append(('xdy', f'ext_spmm conjT {sp_token(Pc)}',
+                            {'dense': sp_dense_str(H.toarray()), 'raw': sp_raw_str(H), 'what': 'conjT'}, case, viol))
+
+
+def flush_spmm(ctx, what, line, impl, case, o):
+    """compare one ext_spmm / ext_convert reply"""
+    parts = o.split(';')
+    if o.startswith('error') or len(parts) < 2:
+        ctx.corr('ext_spmm', {'line': line[:600], 'ctor': case['ctor']}, o, 'a product / conversion')
+        return
+    if what == 'xgal':
+        Ac, Bd, tol = impl['Ac'], impl['Bd'], impl['tol']
+        vals = dec_list(parts[-1], dec_crat)
+        G = np.array([complex(float(a), float(b)) for a, b in vals]).reshape(Ac.shape)
+        E = np.abs(Ac - G)
+        with np.errstate(divide='ignore', invalid='ignore'):
+            q = np.where(E == 0, 0.0, E / Bd)
+        qm = float(np.max(q)) if q.size else 0.0
+        ctx.feat('spmm:galerkin-real' + (':exact' if qm == 0.0 else ''))
+        if qm > 0:
+            ctx.rel_err(qm)
+            if qm > 1e-13:
+                ctx.feat('spmm:galerkin-real:rounding>1e-13')
+        if impl['numpy_ok'] and not qm <= 10 * tol:
+            ctx.corr('ext_spmm', {'line': line[:600], 'ctor': case['ctor'], 'level': impl['level']},
+                     f'|A_c - model(R @ A @ P)| / (|R||A||P|) = {qm:.3g}', f'NumPy oracle: within {tol:.1g}')
+        elif not impl['numpy_ok'] and qm < tol / 10:
+            ctx.corr('ext_spmm', {'line': line[:600], 'ctor': case['ctor'], 'level': impl['level']},
+                     f'model product agrees with A_c ({qm:.3g})', 'NumPy oracle: Galerkin clause violated')
+        return
+    if parts[-1] != impl['dense']:
+        ctx.corr('ext_convert' if line.startswith('ext_convert') else 'ext_spmm',
+                 {'line': line[:600], 'ctor': case['ctor'], 'what': impl.get('what', 'transpose')}, parts[-1][:400], impl['dense'][:400])
+        return
+    if what == 'xtr':
+        ctx.feat('spmm:transpose')
+        # both transposes of the model (function and csr_tocsc arrays) against scipy's arrays
+        ctx.feat('spmm:layout-same' if parts[0] == impl['raw'] and parts[1] == impl['raw'] else 'spmm:layout-differs:transpose')
+        if parts[0] != parts[1]:
+            ctx.corr('ext_spmm', {'line': line[:600], 'what': 'transpose vs transposeArr'}, parts[0][:300], parts[1][:300])
+        return
+    ctx.feat('spmm:' + impl['what'])
+    if impl['raw'] is not None:
+        ctx.feat('spmm:layout-same' if parts[0] == impl['raw'] else 'spmm:layout-differs:' + impl['what'].split(':')[0])
+
+
+# ------------------------------------------------------------------------------------------------
 # one case end to end
 # ------------------------------------------------------------------------------------------------
 
@@ -1007,18 +1240,23 @@ def queue_steps(ctx, case, ml, calls, info, ML, MC, reason, real_calls, pending,
     pending.append(('xbuild', line, f'{enc_ints(rows)};{enc_ints(bss)};{reason};{real_calls}', case, viol))
 
 
-def eval_case(ctx, case, pending):
-    """build, judge with NumPy, queue the Lean requests"""
+def eval_case(ctx, case, pending, shared=None):
+    """build, judge with NumPy, queue the Lean requests; returns (ml, calls, violations found by the oracle) or None"""
     ctor, kw = case['ctor'], case['kw']
-    ckey = _key(ctor, case['A'].tobytes(), case['fmt'], case['bs'], case.get('dtype'), repr(pack(kw)))
+    ckey = _key(ctor, case['A'].tobytes(), case['fmt'], case['bs'], case.get('dtype'), repr(pack(kw)), case.get('hkey'))
     pcase = None
+    hist = case.get('calls_so_far')           # call history on one matrix object: this call is the last of the list
+    where = '' if hist is None else \
+        f' [call {len(hist)} on the same matrix object, after {", ".join(CT[h["ctor"]][1] for h in hist[:-1]) or "nothing"}]'
 
     def viol(what, fkey=None):
         nonlocal pcase
         if pcase is None:
             pcase = {'ctor': ctor, 'A': pack(case['A']), 'fmt': case['fmt'], 'bs': case['bs'], 'dtype': case.get('dtype'),
                      'kw': pack(kw), 'seed': case['seed']}
-        ctx.violation(f'{CT[ctor][1]}: {what}', pcase, fkey=fkey)
+            if hist is not None:
+                pcase = history_pcase(case, hist)
+        ctx.violation(f'{CT[ctor][1]}: {what}{where}', pcase, fkey=fkey)
 
     ctx.feat('ctor:' + ctor)
     ctx.feat('fmt:' + case['fmt'] + (str(case['bs']) if case['fmt'] == 'bsr' else ''))
@@ -1026,7 +1264,7 @@ def eval_case(ctx, case, pending):
     ML0, MC0 = kw['max_levels'], kw['max_coarse']
     ML, MC, short = py_limits(case)
     try:
-        ml, calls, Ain, D0 = build(case)
+        ml, calls, Ain, D0 = build(case, shared)
     except Exception as ex:  # noqa: BLE001
         msg = f'{type(ex).__name__}: {ex}'
         ctx.case(key=ckey, nontrivial=False)
@@ -1039,16 +1277,17 @@ def eval_case(ctx, case, pending):
         viol(f'raised {msg[:300]} instead of returning a hierarchy (max_levels={ML0}, max_coarse={MC0})', fkey)
         return
     bad, info = judge(case, ml, calls, Ain, D0)
+    result = (ml, calls, bad)
     if info.get('nonfinite'):
         ctx.feat('nonfinite-values-skipped')
         ctx.case(key=ckey, nontrivial=False)
-        return
+        return result
     m = info['m']
     for clause, text, fkey in bad:
         viol(f'{text} [clause {clause}; max_levels={ML0}, max_coarse={MC0}]', fkey)
     if 'node' not in info:
         ctx.case(key=ckey, nontrivial=False)
-        return
+        return result
     rows, bss, node = info['rows'], info['bs'], info['node']
     if 'galerkin_q' in info:
         ctx.rel_err(info['galerkin_q'])
@@ -1112,6 +1351,11 @@ def eval_case(ctx, case, pending):
             pending.append(('check', f'c04_check {info["sym"]} 1/10000000000 ' + ' '.join(toks),
                             'ok' if not structural else 'fail', case, viol))
             ctx.feat('lean-checked-hierarchy')
+            # extension E27 on every third (thorough: fourth) of them, on all of them in a replay / deep search
+            if not any(b[0] in ('dims', 'empty-level') for b in bad) and \
+                    (ctx.deep or ctx.replay_case is not None or ctx.evaluations % ctx.scale(3, 4) == 0):
+                queue_spmm(ctx, case, ml, info, bad, pending, viol)
+    return result
 
 
 def lean_retry(ctx, lines):
@@ -1143,6 +1387,9 @@ def flush(ctx, pending):
         return
     outs = lean_retry(ctx, [p[1] for p in pending])
     for (what, line, impl, case, viol), o in zip(pending, outs):
+        if what in ('xgal', 'xdy', 'xtr'):
+            flush_spmm(ctx, what, line, impl, case, o)
+            continue
         if what == 'check':
             # the proved checker and the NumPy oracle judge the same levels: they must agree
             lean_ok, numpy_ok = (o == 'ok'), (impl == 'ok')
@@ -1266,6 +1513,111 @@ def bare_solver_case(ctx, rng):
             break
 
 
+# ------------------------------------------------------------------------------------------------
+# call histories: several constructor calls on the SAME matrix object
+# ------------------------------------------------------------------------------------------------
+
+HIST_FMTS = ['csr', 'csr', 'csr', 'bsr', 'bsr', 'csr_matrix', 'csc', 'dense']   # csr / bsr float input is not copied
+
+
+def has_pairwise(kw):
+    a = kw.get('aggregate')
+    return any(name_of(x) == 'pairwise' for x in (a if isinstance(a, list) else [a]))
+
+
+def gen_history(rng, quick):
+    """2-3 constructor calls on one matrix object (real: all five constructors, complex: the two that accept complex
+    input), every call with its own options / symmetry flag / limits / keep; a call may also repeat an earlier one with
+    the very same option objects and other scalars.  The quantifier of the property is over inputs and configurations:
+    what an earlier call left on the user's objects must not change what a later call returns."""
+    cplx = rng.random() < 0.5
+    if cplx:
+        D, tags = gen_matrix(rng, 'sa', True, fam=str(pick(rng, ['gauge', 'gauge', 'cherm', 'cherm', 'csym', 'cnonsym'])))
+    else:
+        D, tags = gen_matrix(rng, 'rs', True)
+    n = D.shape[0]
+    fmt, bs = str(pick(rng, HIST_FMTS)), 1
+    if tags.get('elas') and rng.random() < 0.7:
+        fmt, bs = 'bsr', 2
+    elif fmt == 'bsr':
+        bs = int(pick(rng, [b for b in (1, 2, 3) if n % b == 0]))
+    ctors = ['sa', 'rn', 'sa', 'rn'] + ([] if cplx else ['rs', 'air', 'pw'])
+    calls = []
+    for j in range(2 if rng.random() < 0.35 else 3):
+        if j > 0 and rng.random() < 0.25:
+            i = int(rng.integers(j))
+            base = calls[i]
+            c = dict(base)
+            c['kw'] = kw = copy.deepcopy(base['kw'])
+            c['reuse'] = base['reuse'] if base.get('reuse') is not None else i
+            c['seed'] = int(rng.integers(2 ** 31))
+            ML, MC = gen_limits(rng)
+            kw['max_levels'] = min(ML, 2) if has_pairwise(kw) and c['ctor'] in ('sa', 'rn') else ML
+            kw['max_coarse'] = MC
+            if 'keep' in kw:
+                kw['keep'] = not kw['keep']
+            if c['ctor'] in ('sa', 'rn') and kw.get('symmetry', 'hermitian') != 'nonsymmetric':
+                kw['symmetry'] = str(pick(rng, ['hermitian', 'symmetric']))     # BH / the Krylov method stay what they were
+        else:
+            ctor = str(pick(rng, ctors))
+            sym = str(pick(rng, ['hermitian', 'hermitian', 'symmetric', 'nonsymmetric']))
+            c = gen_case(rng, True, ctor, given={'A': D, 'tags': tags, 'fmt': fmt, 'bs': bs, 'sym': sym})
+            kw = c['kw']
+        if kw['max_levels'] == 1 and rng.random() < 0.8:
+            kw['max_levels'] = 2                      # a hierarchy with one level has no R / P to judge
+        if kw.get('symmetry') == 'hermitian' and rng.random() < 0.5:
+            del kw['symmetry']                        # the documented default
+        calls.append(c)
+    return calls
+
+
+def history_pcase(case, hist):
+    return {'history': True, 'A': pack(case['A']), 'fmt': case['fmt'], 'bs': case['bs'],
+            'calls': [{'ctor': h['ctor'], 'kw': pack(h['kw']), 'seed': h['seed'], 'reuse': h.get('reuse')} for h in hist]}
+
+
+def history_case(ctx, pending, calls):
+    """every hierarchy is judged against the options of the call that built it; the hierarchies returned earlier are
+    judged again after every later call (their operators are still what the constructor returned)"""
+    first = calls[0]
+    Ain = make_input(first['A'], first['fmt'], first['bs'], None)
+    D0 = dense(Ain).copy()
+    ctx.feat(f'history:{len(calls)}-calls')
+    ctx.feat('history:' + ('complex' if first['tags'].get('complex') else 'real') +
+             (':same-object' if first['fmt'] in ('csr', 'bsr', 'csr_matrix') else ':converted-copy'))
+    done = []
+    hkey = ''
+    for j, c in enumerate(calls):
+        c['calls_so_far'] = calls[:j + 1]
+        c['hkey'] = hkey
+        live = calls[c['reuse']].get('_live_kw') if c.get('reuse') is not None else None
+        if c.get('reuse') is not None:
+            ctx.feat('history:same-option-objects' if live is not None else 'history:repeat-of-failed-call')
+        prev = [h for h in calls[:j] if h['ctor'] in ('sa', 'rn')]
+        if prev and c['ctor'] in ('sa', 'rn'):
+            a, b = prev[-1]['kw'].get('symmetry', 'default'), c['kw'].get('symmetry', 'default')
+            ctx.feat(f'history:flag:{a}->{b}')
+        res = eval_case(ctx, c, pending, shared={'Ain': Ain, 'D0': D0, 'live_kw': live})
+        hkey = _key(hkey, c['ctor'], repr(pack(c['kw'])))
+        # the hierarchies of the earlier calls, once more
+        for (pc, pml, pcalls, pbad) in done:
+            bad2, info2 = judge(pc, pml, pcalls, Ain, D0)
+            if info2.get('nonfinite'):
+                continue
+            seen = set((b[0], b[1]) for b in pbad)
+            for clause, text, fkey in bad2:
+                if (clause, text) not in seen:
+                    pbad.append((clause, text, fkey))
+                    ctx.violation(f'{CT[pc["ctor"]][1]}: {text} [clause {clause}] -- the hierarchy held this clause when it was '
+                                  f'returned; it broke when {CT[c["ctor"]][1]} was called on the same matrix object (call {j + 1})',
+                                  history_pcase(c, calls[:j + 1]), fkey=fkey)
+        if res is not None:
+            done.append((c, res[0], res[1], list(res[2])))
+    for c in calls:
+        c.pop('calls_so_far', None)
+        c.pop('_live_kw', None)
+
+
 def run_cases(ctx, n, ctor=None):
     rng = ctx.np_rng
     pending = []
@@ -1278,6 +1630,8 @@ def run_cases(ctx, n, ctor=None):
             adaptive_case(ctx, rng)
         elif ctor is None and r < 0.06:
             bare_solver_case(ctx, rng)
+        elif ctor is None and r < 0.18:
+            history_case(ctx, pending, gen_history(rng, ctx.quick))
         else:
             eval_case(ctx, gen_case(rng, ctx.quick, ctor), pending)
         if len(pending) >= ctx.scale(1200, 3000):
@@ -1307,6 +1661,18 @@ def replay(ctx, data):
     elif 'levelize' in c:
         print('replay: levelize case', c)
         levelize_correspondence(ctx)
+    elif c.get('history'):
+        A = unpack(c['A'])
+        calls = [{'ctor': h['ctor'], 'A': A, 'fmt': c['fmt'], 'bs': c['bs'], 'dtype': None, 'kw': unpack(h['kw']),
+                  'seed': h['seed'], 'reuse': h.get('reuse'), 'tags': {'fam': 'replay', 'complex': bool(np.iscomplexobj(A))}}
+                 for h in c['calls']]
+        print('replaying', len(calls), 'constructor calls on ONE', A.shape, c['fmt'], 'matrix object:')
+        for h in calls:
+            print('   ', CT[h['ctor']][1], {k: v for k, v in h['kw'].items() if k not in ('B', 'BH')},
+                  '(the option objects of call %d again)' % (h['reuse'] + 1) if h['reuse'] is not None else '')
+        pending = []
+        history_case(ctx, pending, calls)
+        flush(ctx, pending)
     else:
         case = {'ctor': c['ctor'], 'A': unpack(c['A']), 'fmt': c['fmt'], 'bs': c['bs'], 'dtype': c.get('dtype'),
                 'kw': unpack(c['kw']), 'seed': c['seed'], 'tags': {'fam': 'replay'}}
